@@ -2,7 +2,7 @@
 bound to the code in the same way (observations of the real code validated by TLC against the spec).  They never print a
 VIOLATION line and are not registered as property checks: a difference here means the code and the spec's description of it
 have drifted apart (NONCONFORMANCE), which may be a deliberate retuning of a heuristic.  Results go to conformance/<name>.json."""
-import json, os, sys, glob, time
+import json, os, sys, glob, time, subprocess
 import core, build
 from core import InfraError
 
@@ -41,7 +41,89 @@ def order(work, tier):
                      "the engine's score of every move equals the spec's")
 
 
-MONITORS = {"order": order}
+def parse_pgn(text):
+    """one game: tags, movetext with {comments}, result; returns (tag result, movetext result, SAN list, move numbers ok)"""
+    import re
+    tag = re.search(r'\[Result "([^"]*)"\]', text)
+    body = text.split("\n\n", 1)[1] if "\n\n" in text else ""
+    body = re.sub(r"\{[^}]*\}", " ", body)
+    toks = body.split()
+    sans, nums_ok, result, expect_no = [], True, "", 1
+    for t in toks:
+        if t in ("1-0", "0-1", "1/2-1/2", "*"):
+            result = t
+        elif re.fullmatch(r"\d+\.", t):
+            # a move number stands before every white move and counts 1, 2, 3, ...
+            if len(sans) % 2 != 0 or int(t[:-1]) != len(sans) // 2 + 1:
+                nums_ok = False
+        else:
+            if len(sans) % 2 == 0 and (not sans and False):
+                pass
+            sans.append(t)
+    # every white move must have been preceded by its number: count the numbers
+    n_numbers = sum(1 for t in toks if re.fullmatch(r"\d+\.", t))
+    if n_numbers != (len(sans) + 1) // 2:
+        nums_ok = False
+    return (tag.group(1) if tag else ""), result, sans, nums_ok
+
+
+def referee(work, tier):
+    """Referee.tla / RefereeTrace.tla against the real `regression` binary playing scripted engines"""
+    exe = build.build("plain")
+    reg = build.regression_exe("plain")
+    full = tier == "thorough"
+    # D: the referee as a state machine over the game machine, exhaustive from small roots
+    design = {}
+    for i, root in enumerate(["7k/5K2/6Q1/8/8/8/8/8 w - - 0 1", "k7/2K5/8/8/8/8/8/1R6 w - - 0 1", "7k/5K2/8/6P1/8/8/8/8 b - - 98 60"] + (["8/8/8/8/8/2k5/1q6/K7 b - - 0 1"] if full else [])):
+        cfg = os.path.join(work, "Referee%d.cfg" % i)
+        open(cfg, "w").write('CONSTANTS Root = "%s" MaxPlies = 3\nSPECIFICATION Spec\nCONSTRAINT Bounded\nINVARIANTS EndedOnlyWhenOver OneFlag ResultSound\nCHECK_DEADLOCK FALSE\n' % root)
+        r = core.tlc_ok(core.tlc("Referee.tla", cfg=cfg, workers=4, timeout=900, metadir=os.path.join(work, "md%d" % i)), "Referee design")
+        design[root] = r["distinct"]
+    games_f = os.path.join(work, "games.txt")
+    core.run_vh(exe, ["referee-games", "--games", 400 if full else 36, "--maxply", 400, "--out", games_f, "--seed", core.seed()], timeout=3000)
+    games = [l.split() for l in open(games_f) if l.strip()]
+    if len(games) < 10:
+        raise InfraError("too few complete games for the referee run")
+    from concurrent.futures import ThreadPoolExecutor
+
+    def play(i):
+        ms = games[i]
+        d = os.path.join(work, "g%d" % i)
+        os.makedirs(d, exist_ok=True)
+        open(os.path.join(d, "script.txt"), "w").write(" ".join(ms) + "\n")
+        for side in ("w", "b"):
+            sh = os.path.join(d, side + ".sh")
+            open(sh, "w").write("#!/bin/sh\nexec %s scripted-engine --script %s\n" % (exe, os.path.join(d, "script.txt")))
+            os.chmod(sh, 0o755)
+        pgn = os.path.join(d, "game.pgn")
+        r = subprocess.run([reg, "--engine", "command=" + os.path.join(d, "w.sh"), "name=A", "--engine", "command=" + os.path.join(d, "b.sh"), "name=B",
+                            "--format", "5+0:1", "--threads", "1", "--pgn", pgn, "--seed", "1"], capture_output=True, text=True, timeout=300, cwd=d)
+        text = open(pgn).read() if os.path.exists(pgn) else ""
+        tagres, res, sans, nums_ok = parse_pgn(text)
+        return dict(script=ms, sans=sans, result=res, tagresult=tagres, numbers_ok=nums_ok, exit=r.returncode)
+    with ThreadPoolExecutor(max_workers=12) as ex:
+        recs = list(ex.map(play, range(len(games))))
+    shards = []
+    for k in range(8):
+        p = os.path.join(work, "ref.%d.ndjson" % k)
+        with open(p, "w") as f:
+            for r in recs[k::8]:
+                f.write(json.dumps(r) + "\n")
+        shards.append(p)
+    viols, cnt, st = core.validate_shards(shards, module="RefereeTrace.tla", cfg="RefereeTrace.cfg", timeout=3000)
+    if cnt.get("games", 0) != len(recs):
+        raise InfraError("referee monitor consumed %d of %d games" % (cnt.get("games", 0), len(recs)))
+    for k in ("mate", "threefold"):
+        if cnt.get(k, 0) == 0:
+            raise InfraError("vacuous referee run: no game ended by %s" % k)
+    return dict(viols=viols, counters=cnt, states=st["distinct"] + sum(design.values()), design_states=design, spec=["RefereeDefs.tla", "Referee.tla", "RefereeTrace.tla"],
+                what="complete legal games (ending in mate, stalemate, fifty-move, threefold and material draws) are played through the real `regression` "
+                     "binary by two scripted UCI engines; the monitor replays every game with the rules specification and checks that the record ends exactly where the "
+                     "game is over, that the result (tag and movetext) is the outcome of the final position, that every SAN of the PGN denotes exactly the move played "
+                     "with the right check / mate suffix, and that move numbers are in order")
+
+
+MONITORS = {"order": order, "referee": referee}
 
 if __name__ == "__main__":
     args = sys.argv[1:]
